@@ -705,6 +705,9 @@ class TransformToGaussian(OutputWarper):
       )[1].reshape(labels_arr_flattened.shape)
     else:
       base_for_transform = labels_arr_flattened
+    if np.max(base_for_transform) == np.min(base_for_transform):
+      # All labels are equal: every one of them is the median.
+      return np.zeros(labels_arr.shape, dtype=labels_arr.dtype)
     base_for_transform_normalized = (
         base_for_transform - np.min(base_for_transform)
     ) / (np.max(base_for_transform) - np.min(base_for_transform))
